@@ -456,12 +456,21 @@ Proof.
 Qed.
 
 (* ---- run level ---- *)
-Section Run.
+Definition init_before_until (st:static) : Prop := forall i c, (i < nsims st)%nat -> In c (init_nexts st i) -> thd c < until st.
+
+Definition init_before_untilb (st:static) : bool :=
+  forallb (fun i => forallb (fun c => thd c <? until st) (init_nexts st i)) (seq 0 (nsims st)).
+Lemma init_before_untilb_sound st : init_before_untilb st = true -> init_before_until st.
+Proof.
+  unfold init_before_untilb. intros H i c Hi Hc. rewrite forallb_forall in H.
+  assert (Hs : In i (seq 0 (nsims st))) by (apply in_seq; lia).
+  specialize (H i Hs). rewrite forallb_forall in H. apply Z.ltb_lt. apply H; exact Hc.
+Qed.
+
+Section Run0.
 Variable st : static.
 Hypothesis OK : static_ok st.
-Variable D : nat.
-Variable rank : nat -> nat.
-Hypothesis FL : uni_ok st D rank.
+Hypothesis IB : init_before_until st.
 
 Definition Live (s:state) : Prop := Good st s /\ Aux st s /\ Live3 st s.
 
@@ -471,7 +480,7 @@ Proof.
   - split.
     + intros i aw H. simpl in H. discriminate.
     + intros i _. reflexivity.
-    + intros i c Hi H. simpl in H. eapply fl_init; eauto.
+    + intros i c Hi H. simpl in H. eapply IB; eauto.
   - split.
     + intros _ i _ H. simpl in H. congruence.
     + intros i aw _ H. simpl in H. discriminate.
@@ -499,6 +508,30 @@ Proof.
   eapply live_run; [apply live_init|exact H|]. apply last_in. discriminate.
 Qed.
 
+(* a simulator that is done has nothing left in its queue: no demanded step is dropped at the end *)
+Theorem done_queue_empty s i : reached st s -> (i < nsims st)%nat -> pc (s i) = Done -> nexts (s i) = [].
+Proof.
+  intros R Hi Hd. destruct (reached_live s R) as (G & A & [_ _ HD]).
+  destruct (nexts (s i)) as [|c r] eqn:E; [reflexivity|exfalso].
+  assert (Hc : In c (nexts (s i))) by (rewrite E; left; reflexivity).
+  pose proof (aux_bound _ _ A i c Hi Hc) as Hb. specialize (HD i Hd).
+  destruct G as ([[HS HL] _] & _ & _). destruct (HL i) as (_ & B & _).
+  assert (Hin : In c (cands (s i))) by (unfold cands; apply in_or_app; right; exact Hc).
+  specialize (B c Hin). pose proof (ok_depth st OK i) as H1.
+  assert (thd (prog (s i)) <= thd c).
+  { apply tle_thd; [exact B| |]; eapply nonempty_of_len; try exact H1; [exact (proj1 (HS i))|exact (proj2 (HS i) c Hin)]. }
+  lia.
+Qed.
+End Run0.
+
+Section Run.
+Variable st : static.
+Hypothesis OK : static_ok st.
+Variable D : nat.
+Variable rank : nat -> nat.
+Hypothesis FL : uni_ok st D rank.
+Let IB : init_before_until st := fl_init _ _ _ FL.
+
 (* the events with which the scheduler itself moves on: a simulator task starts, a simulator begins a step, or the
    same-time loop guard stops the run with a SimulationError *)
 Definition scheduler_move (e:event) : Prop :=
@@ -510,7 +543,7 @@ Definition scheduler_move (e:event) : Prop :=
 Theorem uniform_progress s : reached st s -> Quiet s -> (exists i, (i < nsims st)%nat /\ pc (s i) <> Done) ->
   exists e s', scheduler_move e /\ apply st s e = Ok s'.
 Proof.
-  intros R Q Hnd. destruct (reached_live s R) as (G & A & [HE HW HD]).
+  intros R Q Hnd. destruct (reached_live st OK IB s R) as (G & A & [HE HW HD]).
   assert (HD1 : (1 <= D)%nat).
   { destruct Hnd as (i & Hi & _). rewrite <- (fl_depth _ _ _ FL i Hi). apply (ok_depth st OK). }
   destruct (existsb (fun i => match pc (s i) with NotStarted => true | _ => false end) (seq 0 (nsims st))) eqn:Ex.
